@@ -67,6 +67,9 @@ fn run_case(kind: &str, idx: u64, rng: &mut Rng, mon: &mut Mon, _tier: Tier) {
         mon.count("b_nonzero");
     }
     check_calls(mon, &robot, &kin, &gp, &prev, prev_class, j6, &ENTRIES);
+    if idx < 2 {
+        mon.sample(json!({"robot": robot_json(&robot), "pose_class": gp.class, "prev_class": prev_class, "prev": jf(&prev)}));
+    }
     // a fifth of the cases additionally asks the same solver through a stack of Tool / Base / Frame wrappers (6-DOF entry
     // points of 6-DOF robots: every answer must land on the requested pose through the reference composition)
     if gp.proper && rp.dof == 6 && rng.bool(0.2) {
